@@ -204,4 +204,46 @@ def lockResurrectDeadBrokers  : Unit :=
 def unlockResurrectDeadBrokers  : Unit :=
   ()
 
+/-- generated from client.go (*client).updateMetadata (fragment starting at `switch topic.Err`) -/
+def topicSwitch (terr : Int) (err : Int) (retry : Bool) : Int × Int × Bool :=
+  if (terr = 0) then
+    (0, err, retry)
+  else
+    if ((terr = 17) ∨ (terr = 29)) then
+      let err_v1 : Int := terr
+      (1, err_v1, retry)
+    else
+      if (terr = 3) then
+        let err_v2 : Int := terr
+        let retry_v1 : Bool := true
+        (1, err_v2, retry_v1)
+      else
+        if (terr = 5) then
+          let retry_v2 : Bool := true
+          (0, err, retry_v2)
+        else
+          let err_v3 : Int := terr
+          (1, err_v3, retry)
+
+/-- generated from client.go (*client).tryRefreshMetadata (fragment starting at `if err == ErrSASLAuthenticationFailed`) -/
+def kerrorVerdict (kerr : Int) (d0 : Bool) (d1 : Bool) : Int × Int × Bool :=
+  if (kerr = 58) then
+    (3, kerr, d0)
+  else
+    if (kerr = 29) then
+      (3, kerr, d0)
+    else
+      let d0_v1 : Bool := d1
+      (0, 0, d0_v1)
+
+/-- generated from client.go (*client).tryRefreshMetadata (fragment starting at `allKnownMetaData := len(topics) == 0`) -/
+def answeredVerdict (nTopics : Int) (akm0 : Bool) (retried : Int) (sr : Bool) (uerr : Int) : Int × Bool :=
+  let akm0_v1 : Bool := (decide (nTopics = 0))
+  let err_v1 : Int := uerr
+  let shouldRetry_v1 : Bool := sr
+  if (shouldRetry_v1 = true) then
+    (retried, akm0_v1)
+  else
+    (err_v1, akm0_v1)
+
 end Gen.C15
